@@ -79,3 +79,29 @@ Proof.
   exists abbr_theta_stream, (fun _ => false). split; [vm_compute; discriminate|].
   eexists. split; [vm_compute; reflexivity|]. vm_compute. apply le_n.
 Qed.
+
+(* C03-SIZES-APPEND: a model that needs a $SIZES record (guard sizes_opts = [] false) has it, correctly, before
+   $PROBLEM; get_records('SIZES') looks only inside problem 0 and finds nothing, a second record is created and
+   insert_record — nothing of the default order precedes SIZES — appends it after the last record: the stream of an
+   UNMODIFIED model changes and is refused by the parser's own SIZES-after-PROBLEM test.
+   Witness: 101 thetas, '$SIZES LTH=101' on top. *)
+Definition sizes_stream : list xrec :=
+  [ (1%positive, T "SIZES", T "$SIZES LTH=101
+"); (2%positive, T "PROBLEM", T "$PROBLEM x
+"); (3%positive, T "PRED", T "$PRED
+Y = THETA(101)
+"); (4%positive, T "THETA", T "$THETA 0.1
+") ].
+Definition sizes_new : xrec := (5%positive, T "SIZES", T "$SIZES LTH=101 
+").
+
+Theorem sizes_append_refuted :
+  exists (nth ncomp : nat) (cs : bool) (l : list xrec) (new : xrec),
+    sizes_opts static_sizes nth ncomp cs <> Some [] /\
+    let l' := update_sizes_records xrec xname (fun r => fst (fst r)) xorder l true new in
+    flat_map xstr l' <> flat_map xstr l /\
+    sizes_ok_names false (map xname l) = true /\ sizes_ok_names false (map xname l') = false.
+Proof.
+  exists 101, 0, false, sizes_stream, sizes_new. split; [vm_compute; discriminate|].
+  split; [vm_compute; discriminate|]. split; vm_compute; reflexivity.
+Qed.
